@@ -190,6 +190,24 @@ def run(eng: Engine, ck: Check):
             ck.ob('R-C18-TIMERCLASS', un, s, 'the done-callback clears the slot only if it still holds the task that finished', g is not None or not used_as_cb,
                   'after reschedule() the cancelled old task completes later and its callback erases the handle of the NEW task: cancel() then returns None '
                   'and the callback still fires', construct='Timer._unset_task identity')
+    # the same for EVERY place that empties the slot (a `finally` in the runner, another callback): it either has just cancelled the task
+    # the slot holds (same synchronous stretch), or it has checked that the slot still holds the task that is finishing
+    for m in tc.methods.values():
+        if m is un:
+            continue
+        for f, s, v in eng.stores_to_attr('_task', [m]):
+            if not is_none_const(v) or m.name == '__init__':
+                continue
+            ck.visited(m)
+            cm = eng.cfg(m)
+            just_cancelled = any(cm.nodes_for(y) and all(cm.nodes_for(y)[0] in cm.dominators()[n] and cm.suspension_between(cm.nodes_for(y)[0], n) is None for n in cm.nodes_for(s))
+                                 for y in calls_in(m.node) if call_name(y) == 'cancel' and isinstance(y.func, ast.Attribute) and
+                                 unparse(expand_aliases(m, y.func.value)) == 'self._task')
+            ident = eng.guarded_by(m, s, lambda e, pol: bool(cmp_atom(e)) and cmp_atom(e)[0] in ('is', 'eq') and pol and mentions_attr(e, '_task') and
+                                   (any(mentions_name(e, y) for y in m.params if y != 'self') or 'current_task' in unparse(e)), no_suspension=True)
+            ck.ob('R-C18-TIMERCLASS', m, s, f'Timer.{m.name} empties the slot only for the task it has just cancelled, or after checking that the slot still holds the finishing task',
+                  just_cancelled or ident is not None, 'the cancelled old task of a reschedule() runs this store one loop turn later and erases the handle of the NEW task: '
+                  'cancel() becomes a no-op, the timer fires although it was cancelled, and fires for the superseded deadline as well', construct=f'Timer.{m.name} empties slot')
     c = eng.cfg(ca)
     cc = [y for y in calls_in(ca.node) if call_name(y) == 'cancel']
     ok = len(cc) >= 1 and any(is_none_const(v) for f, s, v in eng.stores_to_attr('_task', [ca]))
